@@ -75,10 +75,13 @@ import (
 type modSrc struct {
 	Name string `json:"name"`
 	Text string `json:"text"`
+	// Explicit: a submodule that is loaded by name like a module (no loaded module includes it;
+	// in a directory set the other submodules come in through their include statements)
+	Explicit bool `json:"explicit,omitempty"`
 }
 
 type genStats struct {
-	modules, submodules, rpcs, augments, uses, deviations, withErrors int
+	modules, submodules, rpcs, augments, uses, deviations, withErrors, orphans, leafrefs int
 }
 
 // palette says which statement kinds a generated set may use.  The base kinds (module, import,
@@ -144,6 +147,8 @@ func genSet(r *rand.Rand, withErrors bool, pal palette) ([]modSrc, genStats) {
 	var st genStats
 	nm := 2 + r.Intn(3)
 	sub := pal.submodule && r.Intn(2) == 0
+	// an ORPHAN submodule: loaded explicitly, belongs to m0, included by nobody (see orphanSub)
+	orphan := pal.submodule && r.Intn(2) == 0
 	var out []modSrc
 	// restrictions that use the keywords min / max directly on a built-in type: their parent
 	// range is a package-level table (Int8Range ... Uint64Range; Uint64Range for every length)
@@ -155,7 +160,7 @@ func genSet(r *rand.Rand, withErrors bool, pal palette) ([]modSrc, genStats) {
 		"type binary { length \"min..16\"; }", "type string { length \"min..4 | 8..max\"; }",
 	}
 	leafType := func(i int, others []int) string {
-		switch k := r.Intn(12); {
+		switch k := r.Intn(13); {
 		case k == 0:
 			return "type string;"
 		case k == 1:
@@ -175,6 +180,15 @@ func genSet(r *rand.Rand, withErrors bool, pal palette) ([]modSrc, genStats) {
 			return "type int32 { range \"1..10\"; } default 5;"
 		case k == 8:
 			return fmt.Sprintf("type r%d { range \"0..max\"; }", i)
+		case k == 12:
+			// a leafref whose path is absolute and prefixed: into another module when there is
+			// one to import, else into the own module (readers resolve it: r.Find(r.Type.Path))
+			st.leafrefs++
+			j := i
+			if len(others) > 0 {
+				j = others[r.Intn(len(others))]
+			}
+			return fmt.Sprintf("type leafref { path \"/p%d:c0/p%d:tg\"; }", j, j)
 		default:
 			return builtinRestr[r.Intn(len(builtinRestr))]
 		}
@@ -263,6 +277,10 @@ func genSet(r *rand.Rand, withErrors bool, pal palette) ([]modSrc, genStats) {
 		nc := 1 + r.Intn(3)
 		for c := 0; c < nc; c++ {
 			fmt.Fprintf(&b, "  container c%d {\n", c)
+			if c == 0 {
+				// the target of the leafref paths: no deviation and no augment touches it
+				b.WriteString("    leaf tg { type string; }\n")
+			}
 			body(&b, i, others, 2, "    ")
 			if pal.deviation && c == 0 {
 				// directly written (not through uses or augment), without list statements of
@@ -278,6 +296,9 @@ func genSet(r *rand.Rand, withErrors bool, pal palette) ([]modSrc, genStats) {
 				b.WriteString("    leaf bad0 { type nosuchtype; }\n    leaf bad1 { type p0:alsonot; }\n    leaf bad2 { type nosuchtype; config maybe; mandatory perhaps; }\n")
 			}
 			b.WriteString("  }\n")
+		}
+		if withErrors && i == 0 {
+			errorNests(&b, r, pal)
 		}
 		nr := 0
 		if pal.rpc {
@@ -322,18 +343,95 @@ func genSet(r *rand.Rand, withErrors bool, pal palette) ([]modSrc, genStats) {
 			}
 		}
 		b.WriteString("}\n")
-		out = append(out, modSrc{fmt.Sprintf("m%d.yang", i), b.String()})
+		out = append(out, modSrc{Name: fmt.Sprintf("m%d.yang", i), Text: b.String()})
 		st.modules++
 	}
 	if sub {
 		st.submodules++
-		out = append(out, modSrc{"s0.yang",
-			"submodule s0 {\n  yang-version 1.1;\n  belongs-to m0 { prefix p0; }\n  container sc { leaf sl { type string; default \"s\"; } leaf sm { type uint8; } }\n}\n"})
+		// the included submodule imports m1 for the sake of a leafref path only (Process links the
+		// import all the same: it walks the includes of m0)
+		out = append(out, modSrc{Name: "s0.yang",
+			Text: "submodule s0 {\n  yang-version 1.1;\n  belongs-to m0 { prefix p0; }\n  import m1 { prefix sq1; }\n" +
+				"  container sc { leaf sl { type string; default \"s\"; } leaf sm { type uint8; } leaf sr { type leafref { path \"/sq1:c0/sq1:tg\"; } } }\n}\n"})
+		st.leafrefs++
+	}
+	if orphan {
+		st.orphans++
+		out = append(out, orphanSub(r, nm, pal))
 	}
 	if withErrors {
 		st.withErrors++
 	}
 	return out, st
+}
+
+// orphanSub: a submodule of m0 that no module includes.  It is loaded explicitly, Process converts
+// it (it has an entry tree of its own: ToEntry(ms.SubModules["o0"])), but the walk that links
+// import and include statements starts from the modules and never gets to it.  Its imports:
+//
+//	m1 (q1)  used in leafref paths only: nothing resolves the prefix while the set is processed
+//	m2 (q2)  used in a must and a when expression only
+//	m3 (q3)  used by the type of a leaf (resolved during Process) and in a leafref path
+//
+// so for q1 and q2 the first look-up ever made through the import is the one the readers make
+// (Find with the leafref path from the leaf; Find with the path of the must from its container).
+func orphanSub(r *rand.Rand, nm int, pal palette) modSrc {
+	var b strings.Builder
+	b.WriteString("submodule o0 {\n  yang-version 1.1;\n  belongs-to m0 { prefix p0; }\n")
+	for j := 1; j < nm; j++ {
+		if pal.pins && r.Intn(2) == 0 {
+			fmt.Fprintf(&b, "  import m%d { prefix q%d; revision-date 2019-0%d-01; }\n", j, j, 1+r.Intn(9))
+		} else {
+			fmt.Fprintf(&b, "  import m%d { prefix q%d; }\n", j, j)
+		}
+	}
+	b.WriteString("  container oc {\n")
+	b.WriteString("    leaf r1 { type leafref { path \"/q1:c0/q1:tg\"; } }\n")
+	b.WriteString("    leaf r0 { type leafref { path \"/p0:c0/p0:tg\"; } }\n")
+	b.WriteString("    leaf plain { type string; default \"o\"; }\n")
+	if nm > 2 {
+		b.WriteString("    container on {\n      must \"/q2:c0/q2:tg != 'x'\";\n      leaf w { when \"/q2:c0/q2:tg\"; type uint8; }\n" +
+			"      leaf r1b { type leafref { path \"/q1:c0\"; } }\n    }\n")
+	}
+	if nm > 3 {
+		b.WriteString("    leaf t3 { type q3:t3; }\n    leaf r3 { type leafref { path \"/q3:c0/q3:tg\"; } }\n")
+	}
+	b.WriteString("  }\n}\n")
+	return modSrc{Name: "o0.yang", Text: b.String(), Explicit: true}
+}
+
+// errorNests writes, into a module of a set with errors, inner nodes that hold SEVERAL errors of
+// their own - 3, 5, 6 and 7 of them, the counts at which a list grown by append has room to spare -
+// and have erroneous descendants as well (leaves of unknown types, directly below and one level
+// further down; eb6 sits inside eb5).  The own errors come from uses statements that name no
+// grouping (once uses is a statement kind of the process) and from children with the same name.
+func errorNests(b *strings.Builder, r *rand.Rand, pal palette) {
+	own := func(ind string, tag string, k int) {
+		nu := 0
+		if pal.uses {
+			nu = []int{k, k / 2, 0}[r.Intn(3)]
+		}
+		for q := 0; q < nu; q++ {
+			fmt.Fprintf(b, "%suses nogrouping-%s-%d;\n", ind, tag, q)
+		}
+		if nu < k {
+			for q := 0; q <= k-nu; q++ {
+				fmt.Fprintf(b, "%sleaf dup { type string; }\n", ind)
+			}
+		}
+	}
+	for _, k := range []int{3, 5, 7} {
+		fmt.Fprintf(b, "  container eb%d {\n", k)
+		own("    ", fmt.Sprint(k), k)
+		fmt.Fprintf(b, "    leaf x { type nosuchtype; }\n    leaf y { type p0:alsonot; }\n    leaf ok { type string; }\n")
+		fmt.Fprintf(b, "    container in { leaf z { type nosuchtype; } leaf fine { type uint8; } }\n")
+		if k == 5 {
+			b.WriteString("    container eb6 {\n")
+			own("      ", "6", 6)
+			b.WriteString("      leaf x6 { type nosuchtype; }\n      container in6 { leaf z6 { type p0:alsonot; mandatory perhaps; } }\n    }\n")
+		}
+		b.WriteString("  }\n")
+	}
 }
 
 // deepSet: one module of 150-220 nested containers (every fifth level also uses a small grouping
@@ -356,7 +454,7 @@ func deepSet(r *rand.Rand, pal palette) []modSrc {
 	}
 	b.WriteString(" leaf bottom { type string; }\n")
 	b.WriteString(strings.Repeat("}", depth) + "\n}\n")
-	return []modSrc{{"deep.yang", b.String()}}
+	return []modSrc{{Name: "deep.yang", Text: b.String()}}
 }
 
 func hashSet(srcs []modSrc) string {
@@ -376,7 +474,8 @@ func hashSet(srcs []modSrc) string {
 // load runs NewModules, the reading of the sources and Process.  With dir == "" the sources are
 // parsed from strings; otherwise they have been written to dir (writeSet) and are loaded the way
 // a tool does it: the directory is put on the search path and the modules are read by name
-// (submodules come in through their include statements, from the path).
+// (submodules come in through their include statements, from the path; an orphan submodule, which
+// nobody includes, is read by name like a module).
 func load(srcs []modSrc, dir string) (*yang.Modules, []string) {
 	ms := yang.NewModules()
 	if dir != "" {
@@ -387,7 +486,7 @@ func load(srcs []modSrc, dir string) (*yang.Modules, []string) {
 		switch {
 		case dir == "":
 			err = ms.Parse(s.Text, s.Name)
-		case strings.HasPrefix(s.Text, "submodule"):
+		case strings.HasPrefix(s.Text, "submodule") && !s.Explicit:
 		default:
 			err = ms.Read(strings.TrimSuffix(s.Name, ".yang"))
 		}
@@ -428,6 +527,47 @@ func modNames(ms *yang.Modules) []string {
 	}
 	sort.Strings(ns)
 	return ns
+}
+
+// rootNames: the trees of a processed set: one per module and one per submodule (Process converts
+// the submodules too; the tree of a submodule holds what is written in it, and for a submodule
+// that no module includes it is the only place where its nodes are).
+func rootNames(ms *yang.Modules) []string {
+	ns := modNames(ms)
+	var ss []string
+	for k := range ms.SubModules {
+		if !strings.Contains(k, "@") && ms.Modules[k] == nil {
+			ss = append(ss, k)
+		}
+	}
+	sort.Strings(ss)
+	return append(ns, ss...)
+}
+
+// rootOf: the module or submodule of that name.
+func rootOf(ms *yang.Modules, name string) *yang.Module {
+	if m := ms.Modules[name]; m != nil {
+		return m
+	}
+	return ms.SubModules[name]
+}
+
+// isOrphan: a submodule that no import/include walk from a module reaches.
+func isOrphan(ms *yang.Modules, name string) bool {
+	sm := ms.SubModules[name]
+	if sm == nil || ms.Modules[name] != nil {
+		return false
+	}
+	for _, mm := range []map[string]*yang.Module{ms.Modules, ms.SubModules} {
+		for _, m := range mm {
+			for _, inc := range m.Include {
+				if inc.Name == name {
+					return false
+				}
+			}
+		}
+	}
+	return true
 }
 
 type node struct {
@@ -540,8 +680,8 @@ func pipeline(srcs []modSrc, dir string) string {
 		ms, errs := load(srcs, dir)
 		var b strings.Builder
 		fmt.Fprintf(&b, "errors %q\n", errs)
-		for _, name := range modNames(ms) {
-			root := yang.ToEntry(ms.Modules[name])
+		for _, name := range rootNames(ms) {
+			root := yang.ToEntry(rootOf(ms, name))
 			fmt.Fprintf(&b, "module %s\n", name)
 			for _, n := range walk(name, root) {
 				b.WriteString(describe(n.e))
@@ -594,9 +734,13 @@ func locate(roots map[string]*yang.Entry, mod string, path []string) *yang.Entry
 	return e
 }
 
-// script derives the reader operations from the structure of a processed set.  Every path names
-// an existing node.  `nsFirst` operations come first: they are the namespace look-ups.
-func script(ms *yang.Modules, roots map[string]*yang.Entry, r *rand.Rand) (nsFirst, rest []op) {
+// script derives the reader operations from the structure of a processed set, reading only (no
+// look-up is made here: the first look-ups on the shared set are the readers').  Every path names
+// an existing node.  `first` operations come first of all, in this order for every reader: the
+// prefixed look-ups from inside the tree of an orphan submodule (the leafref paths of its leaves,
+// the paths of its must / when expressions), whose imports nothing linked or used while the set
+// was processed.  `nsFirst` follow: the namespace look-ups.
+func script(ms *yang.Modules, roots map[string]*yang.Entry, r *rand.Rand) (first, nsFirst, rest []op) {
 	for name, m := range ms.Modules {
 		if strings.Contains(name, "@") {
 			continue
@@ -604,11 +748,28 @@ func script(ms *yang.Modules, roots map[string]*yang.Entry, r *rand.Rand) (nsFir
 		nsFirst = append(nsFirst, op{Kind: "fmbn", Mod: name, Arg: m.Namespace.Name})
 	}
 	nsFirst = append(nsFirst, op{Kind: "fmbn", Arg: "urn:no-such-namespace"})
-	names := modNames(ms)
+	names := rootNames(ms)
 	var all []node
 	for _, name := range names {
 		rest = append(rest, op{Kind: "toentry", Mod: name}, op{Kind: "errs", Mod: name}, op{Kind: "print", Mod: name})
 		all = append(all, walk(name, roots[name])...)
+	}
+	for _, n := range all {
+		orphan := isOrphan(ms, n.mod)
+		if n.e.Type != nil && n.e.Type.Kind == yang.Yleafref && n.e.Type.Path != "" {
+			// what a tool does with a leafref: r.Find(r.Type.Path)
+			o := op{Kind: "find-path", Mod: n.mod, Path: n.path}
+			if orphan {
+				first = append(first, o)
+			} else {
+				rest = append(rest, o)
+			}
+		}
+		if orphan {
+			for _, x := range xpathsOf(n.e.Node) {
+				first = append(first, op{Kind: "find-from", Mod: n.mod, Path: n.path, Arg: x})
+			}
+		}
 	}
 	for _, n := range all {
 		nsFirst = append(nsFirst, op{Kind: "im", Mod: n.mod, Path: n.path})
@@ -647,6 +808,40 @@ func script(ms *yang.Modules, roots map[string]*yang.Entry, r *rand.Rand) (nsFir
 	return
 }
 
+// xpathsOf: the absolute paths at the start of the must / when expressions of a container or leaf
+// (the generator writes expressions of the form `/q:a/q:b` or `/q:a/q:b != 'x'`).
+func xpathsOf(n yang.Node) []string {
+	var exprs []string
+	add := func(v *yang.Value) {
+		if v != nil {
+			exprs = append(exprs, v.Name)
+		}
+	}
+	switch n := n.(type) {
+	case *yang.Container:
+		add(n.When)
+		for _, m := range n.Must {
+			if m != nil {
+				exprs = append(exprs, m.Name)
+			}
+		}
+	case *yang.Leaf:
+		add(n.When)
+		for _, m := range n.Must {
+			if m != nil {
+				exprs = append(exprs, m.Name)
+			}
+		}
+	}
+	var out []string
+	for _, x := range exprs {
+		if f := strings.Fields(x); len(f) > 0 && strings.HasPrefix(f[0], "/") {
+			out = append(out, f[0])
+		}
+	}
+	return out
+}
+
 // stormOps: one ToEntry call per AST node that stands behind an entry of the processed trees
 // (module, container, list, leaf, the stand-in leaf of a leaf-list, choice, case, rpc, input,
 // output, notification, anydata, nodes that came in through uses / augment) and per grouping of
@@ -654,14 +849,40 @@ func script(ms *yang.Modules, roots map[string]*yang.Entry, r *rand.Rand) (nsFir
 // many goroutines ask for the same node at once.
 func stormOps(ms *yang.Modules, roots map[string]*yang.Entry) []op {
 	var out []op
-	for _, name := range modNames(ms) {
+	for _, name := range rootNames(ms) {
 		for _, n := range walk(name, roots[name]) {
 			if n.e.Node != nil {
 				out = append(out, op{Kind: "toentry-node", Mod: n.mod, Path: n.path})
 			}
 		}
-		for _, g := range ms.Modules[name].Grouping {
+		for _, g := range rootOf(ms, name).Grouping {
 			out = append(out, op{Kind: "toentry-grouping", Mod: name, Arg: g.Name})
+		}
+	}
+	return out
+}
+
+// errStormOps: GetErrors on every node that holds errors of its own and on every ancestor of such a
+// node (so: inner nodes with several own errors and erroneous descendants, their parents, the
+// module entries).  Part of the storm: every reader runs them in the same order after the
+// barrier, several times, and each returned list (order included) is compared with the
+// sequential one.  Empty for a set without errors.
+func errStormOps(ms *yang.Modules, roots map[string]*yang.Entry) []op {
+	var out []op
+	for _, name := range rootNames(ms) {
+		nodes := walk(name, roots[name])
+		marked := map[string]bool{}
+		for _, n := range nodes {
+			if len(n.e.Errors) > 0 {
+				for d := 0; d <= len(n.path); d++ {
+					marked[strings.Join(n.path[:d], "/")] = true
+				}
+			}
+		}
+		for _, n := range nodes {
+			if marked[strings.Join(n.path, "/")] {
+				out = append(out, op{Kind: "errs-at", Mod: n.mod, Path: n.path})
+			}
 		}
 	}
 	return out
@@ -675,7 +896,7 @@ func nodeOf(ms *yang.Modules, roots map[string]*yang.Entry, o op) yang.Node {
 			return e.Node
 		}
 	case "toentry-grouping":
-		for _, g := range ms.Modules[o.Mod].Grouping {
+		for _, g := range rootOf(ms, o.Mod).Grouping {
 			if g.Name == o.Arg {
 				return g
 			}
@@ -775,7 +996,7 @@ func run(ms *yang.Modules, roots map[string]*yang.Entry, pre map[string]*yang.En
 			}
 			return m.Name
 		case "toentry":
-			if yang.ToEntry(ms.Modules[o.Mod]) != roots[o.Mod] {
+			if yang.ToEntry(rootOf(ms, o.Mod)) != roots[o.Mod] {
 				return "GUARD toentry-miss: ToEntry of a processed module did not return the cached entry"
 			}
 			return "cached"
@@ -832,6 +1053,17 @@ func run(ms *yang.Modules, roots map[string]*yang.Entry, pre map[string]*yang.En
 				return "nil"
 			}
 			return got.Path()
+		case "find-path":
+			// the target of a leafref, and what a caller then asks about it
+			if e.Type == nil {
+				return "HARNESS: not a typed leaf"
+			}
+			got := e.Find(e.Type.Path)
+			if got == nil {
+				return e.Type.Path + " -> nil"
+			}
+			im, err := got.InstantiatingModule()
+			return fmt.Sprintf("%s -> %s ns=%s im=%s/%v ro=%v", e.Type.Path, got.Path(), got.Namespace().Name, im, err != nil, got.ReadOnly())
 		}
 		return "HARNESS: unknown op"
 	})
@@ -909,6 +1141,15 @@ type roundResult struct {
 	DirSet bool `json:"dir_set,omitempty"` // the shared set was loaded from a directory on the search path
 	// StormOps: AST nodes on which all readers called ToEntry together (stormReps times each)
 	StormOps int `json:"storm_ops"`
+	// ErrStormOps: entries with errors of their own, and their ancestors, on which all readers
+	// called GetErrors together (stormReps times each); OwnErrCounts: the numbers of own errors
+	// of those that also have an erroneous descendant
+	ErrStormOps  int   `json:"err_storm_ops"`
+	OwnErrCounts []int `json:"own_error_counts,omitempty"`
+	// OrphanFirst: prefixed look-ups from inside the tree of an orphan submodule, made by every
+	// reader before anything else; LeafrefFinds: r.Find(r.Type.Path) operations of the script
+	OrphanFirst  int `json:"orphan_first_lookups"`
+	LeafrefFinds int `json:"leafref_finds"`
 }
 
 func roundSeed(seed int64, round int) int64 { return seed*1000003 + int64(round)*7919 + 17 }
@@ -992,8 +1233,10 @@ func doRound(seed int64, round, n, batch int) roundResult {
 		shMS           *yang.Modules
 		shErrs         []string
 		shRoots        = map[string]*yang.Entry{}
+		firstOps       []op
 		nsOps, restOps []op
 		storm          []op
+		nToEntryStorm  int
 		shPre          map[string]*yang.Entry
 		primeProblems  []string
 		ops            []op
@@ -1019,13 +1262,17 @@ func doRound(seed int64, round, n, batch int) roundResult {
 					defer close(sharedReady)
 					builderPanic = guard(func() string {
 						shMS, shErrs = load(shared, sharedDir)
-						for _, name := range modNames(shMS) {
-							shRoots[name] = yang.ToEntry(shMS.Modules[name])
+						for _, name := range rootNames(shMS) {
+							shRoots[name] = yang.ToEntry(rootOf(shMS, name))
 						}
-						nsOps, restOps = script(shMS, shRoots, rand.New(rand.NewSource(roundSeed(seed, round)+1)))
-						ops = append(append([]op{}, nsOps...), restOps...)
+						// (deriving the script reads the structure only: no Find, no prefix is
+						// resolved on the shared set before the readers do it)
+						firstOps, nsOps, restOps = script(shMS, shRoots, rand.New(rand.NewSource(roundSeed(seed, round)+1)))
+						ops = append(append(append([]op{}, firstOps...), nsOps...), restOps...)
 						storm = stormOps(shMS, shRoots)
+						nToEntryStorm = len(storm)
 						shPre, primeProblems = prime(shMS, shRoots, storm)
+						storm = append(storm, errStormOps(shMS, shRoots)...)
 						before = snap(shMS, shRoots)
 						return ""
 					})
@@ -1047,11 +1294,18 @@ func doRound(seed int64, round, n, batch int) roundResult {
 			}
 			pr := rand.New(rand.NewSource(roundSeed(seed, round) + 100 + int64(k)))
 			out := make([]string, len(ops))
-			// 1. the namespace look-ups, first-time for everybody
-			for _, i := range pr.Perm(len(nsOps)) {
+			// 0. the look-ups from inside an orphan submodule: the first prefixed look-ups ever
+			// made through its imports, by all readers, in the same order
+			nf := len(firstOps)
+			for i := 0; i < nf; i++ {
 				out[i] = run(shMS, shRoots, shPre, ops[i])
 			}
-			// 2. the ToEntry storm: all readers together, same nodes in the same order
+			// 1. the namespace look-ups, first-time for everybody
+			for _, i := range pr.Perm(len(nsOps)) {
+				out[nf+i] = run(shMS, shRoots, shPre, ops[nf+i])
+			}
+			// 2. the storm: all readers together, same nodes in the same order (ToEntry on every
+			// AST node, then GetErrors on every entry with errors at or below it)
 			stormBarrier.Done()
 			stormBarrier.Wait()
 			sout := make([]string, len(storm))
@@ -1069,7 +1323,7 @@ func doRound(seed int64, round, n, batch int) roundResult {
 			gotStorm[k] = sout
 			// 3. everything else, in an order of its own
 			for _, i := range pr.Perm(len(restOps)) {
-				out[len(nsOps)+i] = run(shMS, shRoots, shPre, ops[len(nsOps)+i])
+				out[nf+len(nsOps)+i] = run(shMS, shRoots, shPre, ops[nf+len(nsOps)+i])
 			}
 			got[k] = out
 		}(k)
@@ -1089,15 +1343,27 @@ func doRound(seed int64, round, n, batch int) roundResult {
 			res.UnexpectedErrs = true
 			res.Nontrivial = false
 		}
-		for _, name := range modNames(shMS) {
-			res.Nodes += len(walk(name, shRoots[name]))
+		for _, name := range rootNames(shMS) {
+			for _, n := range walk(name, shRoots[name]) {
+				res.Nodes++
+				if len(n.e.Errors) > 2 && len(n.e.GetErrors()) > len(n.e.Errors) {
+					res.OwnErrCounts = append(res.OwnErrCounts, len(n.e.Errors))
+				}
+			}
 		}
 		res.Ops = len(ops)
 		res.FirstTimeNS = len(nsOps)
+		res.OrphanFirst = len(firstOps)
+		for _, o := range ops {
+			if o.Kind == "find-path" {
+				res.LeafrefFinds++
+			}
+		}
+		// the expected answers come from a twin of the shared set, built now
 		refMS, _ := load(shared, sharedDir)
 		refRoots := map[string]*yang.Entry{}
-		for _, name := range modNames(refMS) {
-			refRoots[name] = yang.ToEntry(refMS.Modules[name])
+		for _, name := range rootNames(refMS) {
+			refRoots[name] = yang.ToEntry(rootOf(refMS, name))
 		}
 		refPre, _ := prime(refMS, refRoots, storm)
 		for i, o := range storm {
@@ -1108,12 +1374,13 @@ func doRound(seed int64, round, n, batch int) roundResult {
 			for k := 0; k < nr; k++ {
 				res.Evals += stormReps
 				if gotStorm[k][i] != want && len(res.Problems) < 20 {
-					res.Problems = append(res.Problems, fmt.Sprintf("reader %d: ToEntry storm, %s: concurrent answer %q, sequential answer %q", k, o, gotStorm[k][i], want))
+					res.Problems = append(res.Problems, fmt.Sprintf("reader %d: storm (all readers at once, %d times), %s: concurrent answer %q, sequential answer %q", k, stormReps, o, gotStorm[k][i], want))
 				}
 			}
 		}
 		res.Problems = append(res.Problems, primeProblems...)
-		res.StormOps = len(storm)
+		res.StormOps = nToEntryStorm
+		res.ErrStormOps = len(storm) - nToEntryStorm
 		want := make([]string, len(ops))
 		for i, o := range ops {
 			want[i] = run(refMS, refRoots, refPre, o)
@@ -1168,11 +1435,13 @@ func showRound(seed int64, round, batch int) {
 	ms, errs := load(shared, "")
 	fmt.Printf("---- Process errors: %q\n", errs)
 	roots := map[string]*yang.Entry{}
-	for _, name := range modNames(ms) {
-		roots[name] = yang.ToEntry(ms.Modules[name])
+	for _, name := range rootNames(ms) {
+		roots[name] = yang.ToEntry(rootOf(ms, name))
 	}
-	a, b := script(ms, roots, rand.New(rand.NewSource(roundSeed(seed, round)+1)))
-	for _, o := range append(a, b...) {
+	f0, a, b := script(ms, roots, rand.New(rand.NewSource(roundSeed(seed, round)+1)))
+	fmt.Printf("---- %d look-ups from inside an orphan submodule come first, then %d namespace look-ups, then the rest in an order of the reader's own;\n"+
+		"---- in between all readers call ToEntry on every AST node and GetErrors on %d entries with errors at or below them, together\n", len(f0), len(a), len(errStormOps(ms, roots)))
+	for _, o := range append(append(f0, a...), b...) {
 		fmt.Printf("%-60s -> %s\n", o, run(ms, roots, nil, o))
 	}
 }
@@ -1189,7 +1458,7 @@ func showRound(seed int64, round, batch int) {
 func canarySet() []modSrc {
 	full := palette{true, true, true, true, true, true, true, true, true, true, true, true, false}
 	set, _ := genSet(rand.New(rand.NewSource(424242)), false, full)
-	return append(set, modSrc{"plain.yang", `module plain {
+	return append(set, modSrc{Name: "plain.yang", Text: `module plain {
   yang-version 1.1;
   namespace "urn:plain";
   prefix pl;
@@ -1435,6 +1704,8 @@ func main() {
 	distinct := lib.NewDistinct()
 	var mu sync.Mutex
 	var nodes, ops, firstNS, mods, withErr, roundsDone, unexpected, anomalies, canaries, dirSets, stormNodes int64
+	var errStorm, orphanRounds, orphanFirst, leafrefFinds int64
+	ownErrHist := map[string]int64{}
 	type job struct{ from, to int }
 	jobs := make(chan job)
 	var wg sync.WaitGroup
@@ -1474,6 +1745,15 @@ func main() {
 						dirSets++
 					}
 					stormNodes += int64(rr.StormOps)
+					errStorm += int64(rr.ErrStormOps)
+					if rr.OrphanFirst > 0 {
+						orphanRounds++
+					}
+					orphanFirst += int64(rr.OrphanFirst)
+					leafrefFinds += int64(rr.LeafrefFinds)
+					for _, c := range rr.OwnErrCounts {
+						ownErrHist[fmt.Sprint(c)]++
+					}
 					anomalies += int64(rr.SeqAnomalies)
 					if rr.Nontrivial {
 						distinct.Add(rr.SharedHash)
@@ -1554,6 +1834,11 @@ func main() {
 	res.Distribution["shared_sets_unexpectedly_rejected"] = unexpected
 	res.Distribution["shared_sets_loaded_from_a_directory_on_the_search_path_with_pinned_revision_dates"] = dirSets
 	res.Distribution["sequential_answers_that_are_wrong_lookups_or_panics"] = anomalies
+	res.Distribution["shared_sets_with_an_orphan_submodule_whose_prefixed_lookups_are_every_readers_first_operations"] = orphanRounds
+	res.Distribution["first_lookups_from_inside_orphan_submodules_per_reader_total"] = orphanFirst
+	res.Distribution["leafref_path_finds_per_reader_total"] = leafrefFinds
+	res.Distribution["entries_on_which_all_readers_call_GetErrors_together_3_times_total"] = errStorm
+	res.Distribution["shared_entries_with_erroneous_descendants_by_number_of_own_errors_(3_or_more)"] = ownErrHist
 	if roundsDone > 0 && unexpected*2 > roundsDone {
 		lib.Fatal("the generator is out of date: %d of %d module sets meant to be valid do not process cleanly", unexpected, roundsDone)
 	}
@@ -1569,6 +1854,8 @@ func main() {
 		"reader paths: only existing nodes; the guards of the allow-list (allow.json) are asserted after every round",
 		"independence: after its last round every child process dumps a fixed canary module set (all statement kinds, plain lists and leaf-lists); the dump must equal the one a fresh process makes of the same set alone; a difference is bisected to the first round that causes it",
 		"ToEntry storm: after the namespace look-ups all readers pass a barrier and call yang.ToEntry on the AST node behind every entry of the processed trees (modules, containers, lists, leaves, stand-in leaves of leaf-lists, choices, cases, rpc parts, notifications, nodes from uses/augment) and on every grouping, same order, three times; the answer (name, kind, type, default, list attributes, children, errors of the returned entry, and whether it is the entry the cache held after the set was built) is compared with the sequential answer; the builder reports a node for which two consecutive ToEntry calls return different entries (guard of toentry-miss)",
+		"GetErrors storm (sets with errors, every fourth round): module m0 holds inner containers with 3, 5, 6 and 7 errors of their own (uses statements that name no grouping, children with the same name) and erroneous leaves one and two levels below them (eb6 inside eb5); in the storm phase all readers call GetErrors on every entry that has errors of its own and on each of its ancestors, same order, three times; every returned list, order included, is compared with the list the sequential twin gives",
+		"orphan submodules: when submodule is a statement kind of the process, half of the sets load a submodule o0 of m0 explicitly that no module includes (Process converts it but never links its imports); it imports m1 for leafref paths only, m2 for a must and a when expression only, m3 for a type and a leafref path; the building goroutine makes no look-up on the shared set, and every reader begins with r.Find(r.Type.Path) on the leafref leaves of the orphan's own tree (ToEntry(ms.SubModules[\"o0\"])) and Find of the must / when paths from their nodes, in the same order; the expected answers come from a twin set built afterwards; the trees of all submodules (included ones too) are reader roots like the module trees; leafref leaves with absolute prefixed paths also occur in ordinary modules and in the included submodule s0",
 		"deep sets: the first private set of every pipeline is one module of 150-220 nested containers, converted by all pipelines at the same time; its dump must equal the sequential one (no process-wide budget or counter of the recursion)",
 		"directory sets: every other shared set (and a third of the private sets) is written to a directory that stays on the search path and is loaded by Read; its import / include statements carry revision-dates that are not the loaded revision; readers resolve prefixes (absolute prefixed Find, FindModuleByPrefix) against it",
 		"restrictions with the keywords min / max directly on built-in types (range on all integer types and decimal64, length on string and binary) occur in every set, so that the package-level range tables are the parents in concurrent pipelines",
